@@ -305,7 +305,9 @@ def run(rep, tier, seed, replay=None):
                 v = pt.rational_limit(np.poly1d(ff), np.poly1d(gf), float(t0))
                 oc, val = 0, float(v)
                 if val != val or val in (float('inf'), float('-inf')):
-                    continue
+                    # a non-finite answer is never the limit of these test functions (the model decides
+                    # value / ValueError / AssertionError): hand it over as an impossible value
+                    oc, val = 0, 1.2345e300
             except ValueError:
                 oc, val = 1, 0.0
             except AssertionError:
